@@ -16,9 +16,16 @@ FORBIDDEN = {"dyn", "Box", "Pin", "alloc", "Rc", "Arc", "Vec", "String"}
 def build_case(cid, rng):
     depth = rng.randint(1, 6)
     is_async = rng.random() < 0.5
+    # signature variety carried by every link: an explicit lifetime with a borrowed argument, ?Send
+    with_lt = rng.random() < 0.5
+    no_send = is_async and rng.random() < 0.25
+    G = "<'a>" if with_lt else ""
+    SP = ", s: &'a str" if with_lt else ""
+    SA = ", s" if with_lt else ""
+    OPT = ", ?Send" if no_send else ""
     links = []   # kind per link
     kinds = ["fn", "fn", "mod", "leaf_trait", "inversion"]
-    L, G = [], []
+    L, GT = [], []
     aw = ".await" if is_async else ""
     asy = "async " if is_async else ""
     yld = " ::vrt::yield_once().await;" if is_async else ""
@@ -27,53 +34,53 @@ def build_case(cid, rng):
         links.append(kind)
         last = i == depth
         nxt_trait = "L%d" % (i + 1)
-        call_next_t = ("deps.l%d(*b + %d)%s" % (i + 1, i, aw)) if not last else "*b"
-        call_next_g = ("g%d(deps, *b + %d)%s" % (i + 1, i, aw)) if not last else "*b"
+        call_next_t = ("deps.l%d(*b + %d%s)%s" % (i + 1, i, SA, aw)) if not last else ("*b + s.len() as u64" if with_lt else "*b")
+        call_next_g = ("g%d(deps, *b + %d%s)%s" % (i + 1, i, SA, aw)) if not last else ("*b + s.len() as u64" if with_lt else "*b")
         nbox = rng.randint(1, 3)
         boxes = " ".join("let b = ::std::boxed::Box::new(x + %d);" % k for k in range(nbox))
         body_t = "{ %s%s %s }" % (boxes, yld, call_next_t)
         body_g = "{ %s%s %s }" % (boxes, yld, call_next_g)
         bound = ("impl " + nxt_trait) if not last else "impl ::core::marker::Sized"
         if kind == "fn":
-            L.append("#[::entrait::entrait(pub L%d)] /*@inv%d*/\n%sfn l%d(deps: &%s, x: u64) -> u64 %s" % (i, i, asy, i, bound, body_t))
+            L.append("#[::entrait::entrait(pub L%d%s)] /*@inv%d*/\n%sfn l%d%s(deps: &%s, x: u64%s) -> u64 %s" % (i, OPT, i, asy, i, G, bound, SP, body_t))
         elif kind == "mod":
-            L.append("#[::entrait::entrait(pub L%d)] /*@inv%d*/\npub mod lm%d { use super::*; pub %sfn l%d(deps: &%s, x: u64) -> u64 %s }" % (i, i, i, asy, i, bound, body_t))
+            L.append("#[::entrait::entrait(pub L%d%s)] /*@inv%d*/\npub mod lm%d { use super::*; pub %sfn l%d%s(deps: &%s, x: u64%s) -> u64 %s }" % (i, OPT, i, i, asy, i, G, bound, SP, body_t))
         elif kind == "leaf_trait":
             # hand-written trait, static delegation to T (= the app itself implements it)
-            L.append("#[::entrait::entrait(delegate_by = Self)] /*@inv%d*/\npub trait L%d { %sfn l%d(&self, x: u64) -> u64; }" % (i, i, asy, i))
+            L.append("#[::entrait::entrait(delegate_by = Self%s)] /*@inv%d*/\npub trait L%d { %sfn l%d%s(&self, x: u64%s) -> u64; }" % (OPT, i, i, asy, i, G, SP))
             # the app's implementation needs the rest of the chain through Impl<App>: provide it on App via a free fn on a fresh Impl
-            L.append("impl L%d for App { %sfn l%d(&self, x: u64) -> u64 { let deps = ::entrait::Impl::new(App); %s%s %s } }" % (
-                i, asy, i, boxes, yld, call_next_t))
+            L.append("impl L%d for App { %sfn l%d%s(&self, x: u64%s) -> u64 { let deps = ::entrait::Impl::new(App); %s%s %s } }" % (
+                i, asy, i, G, SP, boxes, yld, call_next_t))
         else:
-            L.append("#[::entrait::entrait(L%dImpl, delegate_by = DelegateL%d)] /*@inv%d*/\npub trait L%d { %sfn l%d(&self, x: u64) -> u64; }" % (i, i, i, i, asy, i))
-            L.append("pub struct T%d;\n#[::entrait::entrait] /*@blk%d*/\nimpl L%dImpl for T%d { pub %sfn l%d(deps: &%s, x: u64) -> u64 %s }" % (i, i, i, i, asy, i, bound, body_t))
+            L.append("#[::entrait::entrait(L%dImpl, delegate_by = DelegateL%d%s)] /*@inv%d*/\npub trait L%d { %sfn l%d%s(&self, x: u64%s) -> u64; }" % (i, i, OPT, i, i, asy, i, G, SP))
+            L.append("pub struct T%d;\n#[::entrait::entrait] /*@blk%d*/\nimpl L%dImpl for T%d { pub %sfn l%d%s(deps: &%s, x: u64%s) -> u64 %s }" % (i, i, i, i, asy, i, G, bound, SP, body_t))
             L.append("impl DelegateL%d<Self> for App { type Target = T%d; }" % (i, i))
         if kind == "leaf_trait":
-            G.append("%sfn g%d<D>(deps: &D, x: u64) -> u64 { let deps2 = ::entrait::Impl::new(App); let deps = &deps2; %s%s %s }" % (asy, i, boxes, yld, call_next_g))
+            GT.append("%sfn g%d<%sD>(deps: &D, x: u64%s) -> u64 { let deps2 = ::entrait::Impl::new(App); let deps = &deps2; %s%s %s }" % (asy, i, "'a, " if with_lt else "", SP, boxes, yld, call_next_g))
         else:
-            G.append("%sfn g%d<D>(deps: &D, x: u64) -> u64 %s" % (asy, i, body_g))
+            GT.append("%sfn g%d<%sD>(deps: &D, x: u64%s) -> u64 %s" % (asy, i, "'a, " if with_lt else "", SP, body_g))
     wrap = (lambda c: "::vrt::block_on(%s)" % c) if is_async else (lambda c: c)
-    D = ["#[derive(Clone, Copy)] pub struct App;"] + L + G + ["pub fn run() {",
+    D = ["#[derive(Clone, Copy)] pub struct App;"] + L + GT + ["pub fn run() {",
          "    let app = ::entrait::Impl::new(App);",
          "    match ::std::env::var(\"C14_MODE\").ok().as_deref() {",
          "        Some(\"none\") => return,",
-         "        Some(\"direct\") => { for _ in 0..10 { let _ = %s; } return; }" % wrap("g1(&app, 1)"),
-         "        Some(\"trait\") => { for _ in 0..10 { let _ = %s; } return; }" % wrap("app.l1(1)"),
+         "        Some(\"direct\") => { for _ in 0..10 { let _ = %s; } return; }" % wrap("g1(&app, 1%s)" % (", \"abc\"" if with_lt else "")),
+         "        Some(\"trait\") => { for _ in 0..10 { let _ = %s; } return; }" % wrap("app.l1(1%s)" % (", \"abc\"" if with_lt else "")),
          "        _ => {}",
          "    }",
          "    ::vrt::trace_enabled(false);",
          "    let a0 = ::vrt::allocs();",
-         "    let r1 = %s;" % wrap("app.l1(1)"),
+         "    let r1 = %s;" % wrap("app.l1(1%s)" % (", \"abc\"" if with_lt else "")),
          "    let a1 = ::vrt::allocs();",
-         "    let r2 = %s;" % wrap("g1(&app, 1)"),
+         "    let r2 = %s;" % wrap("g1(&app, 1%s)" % (", \"abc\"" if with_lt else "")),
          "    let a2 = ::vrt::allocs();",
-         "    let r3 = %s;" % wrap("app.l1(1)"),
+         "    let r3 = %s;" % wrap("app.l1(1%s)" % (", \"abc\"" if with_lt else "")),
          "    let a3 = ::vrt::allocs();",
          "    ::vrt::trace_enabled(true);",
          '    ::vrt::fact("trait_allocs", a1 - a0); ::vrt::fact("direct_allocs", a2 - a1); ::vrt::fact("trait_allocs_again", a3 - a2);',
          '    ::vrt::fact("trait_result", r1); ::vrt::fact("direct_result", r2);',
          "}"]
-    return Case(cid, "\n".join(D) + "\n", meta={"depth": depth, "async": is_async, "links": links,
+    return Case(cid, "\n".join(D) + "\n", meta={"depth": depth, "async": is_async, "links": links, "explicit_lifetime": with_lt, "no_send": no_send,
                                                 "nontrivial": is_async or depth >= 2})
 
 
@@ -151,6 +158,7 @@ def run(tier, seed):
         for l in c.meta["links"]:
             rep.bucket("links", l)
         rep.bucket("depth", str(c.meta["depth"]))
+        rep.bucket("signature", ("async" if c.meta["async"] else "sync") + ("+<'a>" if c.meta["explicit_lifetime"] else "") + ("+?Send" if c.meta["no_send"] else ""))
         rep.count(c.sig(), c.meta["nontrivial"])
         rep.sample({"case": c.id, "links": c.meta["links"], "async": c.meta["async"], "facts": f}, limit=4)
     if tier != "quick":
